@@ -1,0 +1,13 @@
+//go:build verif
+
+package bttest
+
+// verifYieldFn, when set by a verification harness, is called at every
+// instrumented point so that a recorded schedule can be forced natively.
+var verifYieldFn func(point string)
+
+func verifYield(point string) {
+	if f := verifYieldFn; f != nil {
+		f(point)
+	}
+}
